@@ -134,14 +134,14 @@ def uclass(harness, cps):
 
 def model_lex(harness, model, jobs):
     """jobs: [(arch, bytes)] -> token lines of the extracted Lexer.lex_all (same format as the harness
-    'lex' mode; errors as E<kind>@line:col; 'UTF8' when the bytes are not UTF-8)"""
+    'lex' mode; errors as E<kind>@line:col; bytes that are not UTF-8 end in the read error E9 of Lexer.lex_fault)"""
     texts = []
     cps = set()
     for arch, data in jobs:
         try:
             t = data.decode("utf8")
-        except UnicodeDecodeError:
-            t = None
+        except UnicodeDecodeError as e:
+            t = data[:e.start].decode("utf8")       # the characters the lexer sees before the failure
         texts.append(t)
         if t:
             cps.update(ord(ch) for ch in t if ord(ch) > 127)
@@ -155,7 +155,8 @@ def model_lex(harness, model, jobs):
     return run_cases(model, lines)
 
 LEXERRS = ["unexpected line break", "unrecognized string escape", "malformed character literal", "malformed binary number",
-           "malformed decimal number", "malformed hexadecimal number", "unrecognized input", "unknown directive", "malformed label"]
+           "malformed decimal number", "malformed hexadecimal number", "unrecognized input", "unknown directive", "malformed label",
+           "read error"]
 def canon_lex(line):
     """implementation token line with the error message replaced by its kind number"""
     out = []
@@ -175,9 +176,6 @@ def lex_k(ck, harness, model, jobs, limit=2):
     bad = 0
     for (arch, data), i, m in zip(jobs, impl, mod):
         ci = canon_lex(i)
-        if m == "UTF8":
-            if "Eread@" in ci:
-                continue
         if ci != m:
             bad += 1
             if bad <= limit:
@@ -242,7 +240,7 @@ def run_full(harness, model, cases, syms=False, mopts=None, case_timeout=None):
         for p, content in fl:
             data = content.encode("utf8") if isinstance(content, str) else content
             l = toks[(ci, p)]
-            if l == "UTF8" or re.search(r"(^| )E[0-9a-f]*@", l):
+            if re.search(r"(^| )E[0-9a-f]*@", l):
                 l = "!"
             fields += [p, l, data.hex()]
         mlines.append("\t".join(fields))
